@@ -519,6 +519,7 @@ func runC09(c *Ctx) {
 
 	defer runC09EndInBody(c)
 	defer runC09AmbiguousEOF(c)
+	defer runC09NoFailureAsEOF(c)
 	// ---------------------------------------------------------------- C09.5
 	c.Rule("C09.5", "a missing grpc-status is an error", 1)
 	ext := p.MustFunc("grpcExtractErrorFromTrailer")
@@ -685,5 +686,73 @@ func runC09AmbiguousEOF(c *Ctx) {
 	}
 	if n == 0 {
 		c.Trivial("C09.7", "*", "limit-reader-not-stored", token.NoPos, "io.LimitReader is not used at request time")
+	}
+}
+
+// runC09NoFailureAsEOF: C09.8 (defect D27).  A body adapter's Read may answer io.EOF of its own
+// only for a genuine end.  On a path that has just recorded or reported a failure (a non-nil
+// store to the adapter's error cell, a call of the response writer's reporter) returning the
+// io.EOF value turns the failure into a clean end of the request: a unary backend then runs on
+// an empty - complete-looking - message.
+func runC09NoFailureAsEOF(c *Ctx) {
+	p := c.P
+	c.Rule("C09.8", "a request-body adapter's Read does not answer a failure it just recorded with io.EOF", 2)
+	rwReport := p.MustFunc("(*responseWriter).reportError")
+	for _, ra := range readerAdapters(p) {
+		fn := ra.read
+		errF := p.Field(N(ra.typ.Obj()), "err")
+		paths, ok := EnumPaths(fn.Blocks[0], nil, IsReturn, 0)
+		if !ok {
+			c.Unknown("C09.8", FuncName(fn), "paths", fn.Pos(), "too many paths")
+			continue
+		}
+		bad, n := 0, 0
+		var at string
+		for _, cp := range paths {
+			ret := cp.End.(*ssa.Return)
+			rv := ReturnValues(ret)
+			if len(rv) != 2 {
+				continue
+			}
+			isEOF := false
+			v := cp.Deref(rv[1])
+			if u, ok := v.(*ssa.UnOp); ok {
+				if g, ok := u.X.(*ssa.Global); ok && g.Pkg != nil && g.Pkg.Pkg.Path() == "io" && g.Name() == "EOF" {
+					isEOF = true
+				}
+			}
+			if !isEOF {
+				continue
+			}
+			n++
+			failed := false
+			for _, b := range cp.Blocks {
+				for _, in := range b.Instrs {
+					switch x := in.(type) {
+					case *ssa.Store:
+						if fa, ok := x.Addr.(*ssa.FieldAddr); ok && errF != nil && FieldOfAddr(fa) == errF && !IsNilConst(x.Val) {
+							failed = true
+						}
+					case ssa.CallInstruction:
+						for _, cal := range p.CalleesAt(x) {
+							if cal == rwReport {
+								failed = true
+							}
+						}
+					}
+				}
+			}
+			if failed {
+				bad++
+				at = p.Pos(ret.Pos())
+			}
+		}
+		if n == 0 {
+			c.Trivial("C09.8", FuncName(fn), "no-failure-as-eof", fn.Pos(), "Read never produces io.EOF itself")
+			continue
+		}
+		c.Check(bad == 0, "C09.8", FuncName(fn), "no-failure-as-eof", fn.Pos(),
+			"io.EOF is produced only on paths that recorded no failure",
+			"Read returns io.EOF (at "+at+") on a path that has just recorded/reported a failure: the backend sees a clean end of the request instead of an error, and a unary backend runs on an empty message the client never sent")
 	}
 }
